@@ -37,6 +37,9 @@ pub struct Case {
     /// so that "all values of the internal randomness" includes blocks whose counter carries
     #[serde(default)]
     pub iv: Option<crate::props::c03::NonceKind>,
+    /// the password is the wrapped local key's own 32 bytes
+    #[serde(default)]
+    pub password_is_key: bool,
 }
 
 pub fn params_strategy<B: Backend>(tier: Tier) -> BoxedStrategy<PwParams> {
@@ -72,9 +75,13 @@ fn strat<B: Backend>(tier: Tier, which: u8) -> BoxedStrategy<Case> {
     } else {
         Just(None).boxed()
     };
-    (op, any::<bool>(), prop::bool::weighted(0.2), gens::key_seed(), gens::key_seed(), gens::password(), iv)
-        .prop_map(|(op, secret, key_random, wrapped, wrapping, password, iv)| Case {
+    // relations BETWEEN the inputs: a key wrapped under itself, a password equal to the key's bytes
+    let relation = prop_oneof![8 => Just(0u8), 1 => Just(1u8), 1 => Just(2u8)];
+    (op, any::<bool>(), prop::bool::weighted(0.2), gens::key_seed(), gens::key_seed(), gens::password(), iv, relation)
+        .prop_map(|(op, secret, key_random, wrapped, wrapping, password, iv, relation)| (op, secret, key_random, wrapped.clone(), if relation == 1 { wrapped.clone() } else { wrapping }, password, iv, relation == 2))
+        .prop_map(|(op, secret, key_random, wrapped, wrapping, password, iv, password_is_key)| Case {
             iv,
+            password_is_key,
             secret: secret && !matches!(op, Op::Pke { .. }),
             key_random: key_random && !(B::VER == Ver::V1 && secret),
             op,
@@ -136,7 +143,7 @@ where
     let name = B::NAME;
     let k = kind(c.secret);
     let orig = key_bytes(&key);
-    let pw = c.password.bytes();
+    let pw = if c.password_is_key { key_bytes(&local_key::<B>(&c.wrapped)) } else { c.password.bytes() };
     let is_default = *p == default_params::<B>();
     let wrapped = if is_default {
         key.password_wrap(&pw)
@@ -379,6 +386,7 @@ fn subs_for<B: Backend>(out: &mut Vec<SubCheck>) {
                 op: Op::Pbkw(p),
                 secret: false,
                 key_random: false,
+                password_is_key: false,
                 wrapped: wrapped.clone(),
                 wrapping: wrapped,
                 password,
@@ -405,6 +413,7 @@ fn subs_for<B: Backend>(out: &mut Vec<SubCheck>) {
                     op: Op::Pbkw(PwParams::Argon2id { mem_bytes: mib << 20, time: 1, para: 1 }),
                     secret: false,
                     key_random: false,
+                password_is_key: false,
                     wrapped: wrapped.clone(),
                     wrapping: wrapped,
                     password,
@@ -430,6 +439,7 @@ fn subs_for<B: Backend>(out: &mut Vec<SubCheck>) {
                 op: Op::Pbkw(default_params::<B>()),
                 secret: secret && B::VER != Ver::V1,
                 key_random: false,
+                password_is_key: false,
                 wrapped: wrapped.clone(),
                 wrapping: wrapped,
                 password,
@@ -446,7 +456,7 @@ pub fn def() -> PropertyDef {
     PropertyDef {
         id: "C05",
         level: "exploration",
-        rule: "proptest cases (back end x {PIE, PBKW, PKE} x wrapped key {local, secret; parsed, random()} x wrapping key / password (any bytes incl. empty) / PBKW parameters (cheapest, random within budget, default, and a few high-cost ones: > 10^6 PBKDF2 iterations / 64-192 MiB Argon2id, and one Argon2id case at 4 GiB per v2/v4 back end) x recipient pair (v1: also every pool key of another modulus size that the back end accepts as a key-sealing pair); v1 RSA-KEM draw scripted so that the ciphertext has 1-2 leading zero bytes; v1/v3 derived AES-CTR counter block forced (hook) to values whose counter carries past 64 / 128 bits, for wrap and unwrap alike); oracle = wrap ok, own text parses and re-serialises, unwrap returns the same key bytes, decoded length equals the format's fixed length; non-trivial iff non-default parameters, secret key payload, constructed draw, or parsed key",
+        rule: "proptest cases (back end x {PIE, PBKW, PKE} x wrapped key {local, secret; parsed, random()} x wrapping key / password (any bytes incl. empty; one case in ten wraps a key under ITSELF, one in ten uses the key's own bytes as password) / PBKW parameters (cheapest, random within budget, default, and a few high-cost ones: > 10^6 PBKDF2 iterations / 64-192 MiB Argon2id, and one Argon2id case at 4 GiB per v2/v4 back end) x recipient pair (v1: also every pool key of another modulus size that the back end accepts as a key-sealing pair); v1 RSA-KEM draw scripted so that the ciphertext has 1-2 leading zero bytes; v1/v3 derived AES-CTR counter block forced (hook) to values whose counter carries past 64 / 128 bits, for wrap and unwrap alike); oracle = wrap ok, own text parses and re-serialises, unwrap returns the same key bytes, decoded length equals the format's fixed length; non-trivial iff non-default parameters, secret key payload, constructed draw, or parsed key",
         assumptions: vec![
             "PBKW parameters are bounded (<= 4 MiB / 3 passes / 10000 iterations) except the few default-cost cases",
             "v1 keys come from a committed pool of RSA-2048/4096 keys",
